@@ -59,6 +59,7 @@ func (b *BatchWithFlusher) Set(key, value []byte) error {
 	if batchSizeAfter > b.flushThreshold {
 		b.mtx.Unlock()
 		if err := b.Write(); err != nil {
+			b.mtx.Lock() // the deferred Unlock expects the mutex to be held
 			return err
 		}
 		b.mtx.Lock()
@@ -81,6 +82,7 @@ func (b *BatchWithFlusher) Delete(key []byte) error {
 	if batchSizeAfter > b.flushThreshold {
 		b.mtx.Unlock()
 		if err := b.Write(); err != nil {
+			b.mtx.Lock() // the deferred Unlock expects the mutex to be held
 			return err
 		}
 		b.mtx.Lock()
